@@ -134,8 +134,7 @@ def parseArgs (fileOk : Str → Bool) : List Str → PState → Except Unit PSta
       (match st.stack with
        | [] => parseArgs fileOk rest (st.pushCmd .next)
        | f :: fs =>     -- inside a scope `-n` always goes to `then_cmds`
-         let st' : PState := { st with stack := { f with thn := f.thn ++ [.next] } :: fs }
-         parseArgs fileOk rest (st'.peekBreak rest))
+         parseArgs fileOk rest (({ st with stack := { f with thn := f.thn ++ [.next] } :: fs } : PState).peekBreak rest))
     else if a = lit "-r" ∨ a = lit "--repeat" then
       (match repeatOperands rest with
        | none => .error ()
@@ -152,13 +151,12 @@ def parseArgs (fileOk : Str → Bool) : List Str → PState → Except Unit PSta
        | [] => .ok st.closeAll
        | k :: rest' =>
          if (lit "name=").isPrefixOf k then
-           let name := k.drop 5
-           if st.stack.isEmpty ∧ name = lit "0" then .error ()
+           if st.stack.isEmpty ∧ k.drop 5 = lit "0" then .error ()
            else match rest' with
              | [] => .ok st.closeAll
              | k2 :: rest'' =>
                if startsWithDash k2 then .error ()
-               else parseArgs fileOk rest'' ((st.pushCmd (.cut (some name) k2)).peekBreak rest'')
+               else parseArgs fileOk rest'' ((st.pushCmd (.cut (some (k.drop 5)) k2)).peekBreak rest'')
          else if startsWithDash k then .error ()
          else parseArgs fileOk rest' ((st.pushCmd (.cut none k)).peekBreak rest'))
     else match isGlobalFlag a with
